@@ -101,10 +101,12 @@ func checkC18(p *Prog, r *Report) {
 	r.rule("C18.wrapper-copy: Wrapper.Copy builds the copy from a freshly allocated struct, sets the ID from the source's ID, ranges over all Attrs() and Rels() of the source and Sets each under the name it read; values of the mutable kinds ([]byte, *[]byte) and to-many ID lists are replaced by fresh copies (make + copy) before they are stored")
 	r.rule("C18.soft-copy: the object returned by SoftResource.Copy takes its Type from Type.Copy of the source's type, its id from the source's id and its data from the data-copy helper applied to the source's data; SoftResource.New takes its Type from Type.Copy")
 	r.rule("C18.type-copy: Type.Copy stores every entry of both maps of the source into fresh maps under the same key, and copies Name and NewFunc")
+	r.rule("C18.set-replaces: no reflect setter reachable from Wrapper.Set / SetID writes through a struct field (field.Elem(), reflect.Indirect(field)): a field is set by replacing what the struct holds, which is what keeps the pointers to nullable scalars that Wrapper.Copy shares harmless")
 	r.assume("MetaHolder implementations need not deep-copy meta (documented); reflect.New yields fresh memory")
 	r.notCovered("pointee sharing of nullable scalar attributes (*string etc.): the property lists slices, not pointees")
 	r.notCovered("value equality of the copy with its source beyond the plumbing above (C17/C01)")
 
+	checkSetReplaces(p, r)
 	h := newHeap(p)
 	// ---- R9 on the non-reflective copies
 	for _, name := range []string{"(*SoftResource).Copy", "(*SoftResource).New", "(Type).Copy"} {
@@ -1045,4 +1047,74 @@ func anyCloneHelperOK(h *ssa.Function, kt *kindTable) (bool, string) {
 		}
 	}
 	return true, ""
+}
+
+// checkSetReplaces: Wrapper.Copy hands the source's pointers to nullable
+// scalars (*string, *int, ...) to the copy; the two stay independent only
+// because setting a field replaces the pointer held by the struct. No reflect
+// setter on the Set path may therefore write THROUGH a field (field.Elem(),
+// reflect.Indirect(field)).
+func checkSetReplaces(p *Prog, r *Report) {
+	var roots []*ssa.Function
+	for _, n := range []string{"(*Wrapper).Set", "(*Wrapper).SetID"} {
+		if f := p.Fn(n); f != nil {
+			roots = append(roots, f)
+		}
+	}
+	if len(roots) == 0 {
+		r.fail("anchor (*Wrapper).Set not found")
+		return
+	}
+	isFieldCall := func(v ssa.Value) bool {
+		c, _ := callOf(v)
+		if c == nil || c.Common().StaticCallee() == nil {
+			return false
+		}
+		switch fullName(c.Common().StaticCallee()) {
+		case "reflect.(Value).Field", "reflect.(Value).FieldByName", "reflect.(Value).FieldByIndex", "reflect.(Value).FieldByNameFunc":
+			return true
+		}
+		return false
+	}
+	var through func(v ssa.Value, depth int) bool
+	through = func(v ssa.Value, depth int) bool {
+		if depth > 4 {
+			return false
+		}
+		for _, o := range originsDeep(v) {
+			c, _ := callOf(o)
+			if c == nil || c.Common().StaticCallee() == nil || len(c.Common().Args) == 0 {
+				continue
+			}
+			switch fullName(c.Common().StaticCallee()) {
+			case "reflect.(Value).Elem", "reflect.Indirect":
+				for _, o2 := range originsDeep(c.Common().Args[0]) {
+					if isFieldCall(o2) || through(o2, depth+1) {
+						return true
+					}
+				}
+			}
+		}
+		return false
+	}
+	n := 0
+	for _, f := range p.cg.Reachable(roots...) {
+		if f.Pkg != roots[0].Pkg {
+			continue
+		}
+		eachInstr(f, func(ins ssa.Instruction) {
+			c, ok := ins.(*ssa.Call)
+			if !ok || c.Common().StaticCallee() == nil || len(c.Common().Args) == 0 {
+				return
+			}
+			fn := fullName(c.Common().StaticCallee())
+			if !strings.HasPrefix(fn, "reflect.(Value).Set") {
+				return
+			}
+			n++
+			r.decide(!through(c.Common().Args[0], 0), "C18.set-replaces", funcName(f)+":"+p.describe(c), p.pos(c.Pos()), "the setter replaces what the struct field holds",
+				"this setter writes through the pointer held by a struct field instead of replacing it: Wrapper.Copy gives the copy the source's pointers to nullable scalars, so setting the attribute on one of the two changes the other")
+		})
+	}
+	r.floor("reflect setters on the Wrapper's Set path", n, 2)
 }
